@@ -6,6 +6,7 @@ import ZapVerif.Model.TransMultiWSX
 import ZapVerif.Model.TransZioX
 import ZapVerif.Model.TransCallerX
 import ZapVerif.Model.TransEscapeX
+import ZapVerif.Model.TransCEX
 import ZapVerif.Gen.TransProbe
 /-! `zvdrv CTR`: the interpreter side of the translator's differential test.  An op names a generated table and a
     function, gives arguments and receiver fields; the handler runs the GENERATED term in the GoMini interpreter
@@ -50,6 +51,7 @@ def tables : List (String × (Env → Ctx)) := [
   ("TransMultiWS", fun _ => ZapVerif.TransMultiWS.X),
   ("TransCaller", fun _ => ZapVerif.TransCaller.X),
   ("TransEscape", fun _ => ZapVerif.TransEscape.X),
+  ("TransCE", fun _ => ZapVerif.TransCE.X),
   ("TransZio", fun e => ZapVerif.TransZio.X (match e.get "#en" with | some (.bool b) => b | _ => true))
 ]
 
